@@ -12,6 +12,8 @@ func init() {
 			ruleDelegate(c, []string{"RegisterCodec", "RegisterCodecWithTag", "CodecForType", "CodecForTypeWithTag", "Marshal", "Unmarshal"})
 			ruleRegistryKey(c)
 			ruleLookupFirst(c)
+			rulePtrTag(c)
+			rulePendingKey(c)
 			ruleKind(c)
 			ruleOptionScope(c)
 		},
